@@ -11,6 +11,7 @@ import (
 	"time"
 	"unicode"
 
+	"git.sr.ht/~rockorager/vaxis/verifhook"
 	"github.com/rivo/uniseg"
 )
 
@@ -499,6 +500,7 @@ func anywhere(r rune, p *Parser) stateFn {
 		}
 		gen := p.escGen
 		p.escTimeout = time.AfterFunc(10*time.Millisecond, func() {
+			verifhook.At("ansi.timer.fired")
 			p.mu.Lock()
 			defer p.mu.Unlock()
 			if p.done || gen != p.escGen {
@@ -508,6 +510,7 @@ func anywhere(r rune, p *Parser) stateFn {
 			}
 			p.escGen += 1
 			p.emit(C0(0x1B))
+			verifhook.At("ansi.timer.beforeReset")
 			p.state = ground
 		})
 		return escape
